@@ -131,13 +131,13 @@ Definition ex_tm : tmap :=
   [("Query", mkTP false [("me", "a")]); ("Human", mkTP true [("name", "a"); ("friend", "a"); ("phone", "b")])].
 Definition ex_ps : pschema := mkPS ["Query"; "Human"; "Node"] ["Node"] [("Node", ["Human"])] [("Query", ["me"]); ("Human", ["id"; "name"; "friend"; "phone"])].
 Definition ex_input : list psel :=
-  [PField "me" "me" "Human" [PField "" "id" "ID" []; PField "name" "name" "String" []; PField "phone" "phone" "String" [];
-                             PField "friend" "friend" "Human" [PField "" "id" "ID" []; PField "phone" "phone" "String" []]]].
+  [PField "me" "me" "Human" [PField "id" "id" "ID" []; PField "name" "name" "String" []; PField "phone" "phone" "String" [];
+                             PField "friend" "friend" "Human" [PField "id" "id" "ID" []; PField "phone" "phone" "String" []]]].
 Example c02_plan_nonvacuous :
   forallb (frag_ok ex_tm) ex_input = true /\
   plan_root 10 ex_tm ex_ps ["a"; "b"] "Query" ex_input =
-    Ok [mkStep "a" "Query" [] [PField "me" "me" "Human" [PField "" "id" "ID" []; PField "name" "name" "String" [];
-                                                       PField "friend" "friend" "Human" [PField "" "id" "ID" []]]]
+    Ok [mkStep "a" "Query" [] [PField "me" "me" "Human" [PField "id" "id" "ID" []; PField "name" "name" "String" [];
+                                                       PField "friend" "friend" "Human" [PField "id" "id" "ID" []]]]
           [mkStep "b" "Human" ["me"] [PNode "Human" [PField "phone" "phone" "String" []]] [];
            mkStep "b" "Human" ["me"; "friend"] [PNode "Human" [PField "phone" "phone" "String" []]] []]].
 Proof. vm_compute. split; reflexivity. Qed.
@@ -151,6 +151,9 @@ Theorem helpers_added_to_a_field_are_registered : forall tm sc ss ip a n ty d x 
   forall f T, In f (added_for tm sc ip' a ty (x :: sub)) -> In T (reg_types sc ty) ->
   (* ... unless the client selected the field himself in the fragment on that very type *)
   (kind_of sc ty = KOther \/ frag_has (selection_for tm sc ip' a ty (x :: sub)) T f = false) ->
+  (* ... or, under that response key at that place, through a fragment that applies to objects of that type (since
+     fix 75235b9: such a field is the client's own and stays in the answer) *)
+  (forall n' ty' d' sub', occ ss ip (SanField a n' ty' d' sub') ip' -> ~ In (T, f) (client_selected sc sub')) ->
   In ((ip' ++ [a])%list, T, f) (snd (sanitize tm sc ss ip)).
 Proof. exact added_helpers_are_registered. Qed.
 (* ... what is added are `__typename` and `id` only, and only when the client did not select the field on that level *)
@@ -183,7 +186,7 @@ Example c02_sanitize_nonvacuous :
   sanitize SanitizeProofs.ex_tm ex_sc ex_in [] =
   ([SanField "me" "me" "Human" 0 [id_helper; SanField "name" "name" "String" 0 [];
                                   SanField "friend" "friend" "Human" 0 [id_helper; SanField "phone" "phone" "String" 0 []]];
-    SanField "beings" "beings" "Being" 0 [Sanitize.typename_helper; SanFrag "Pet" "Being" [id_helper; SanField "weight" "weight" "Int" 0 []]]],
+    SanField "beings" "beings" "Being" 0 [Sanitize.typename_helper; SanFrag "Pet" "Being" 0 [id_helper; SanField "weight" "weight" "Int" 0 []]]],
    [(["me"; "friend"], "Human", "id"); (["me"], "Human", "id"); (["beings"], "Pet", "id");
     (["beings"], "Human", "__typename"); (["beings"], "Pet", "__typename")]).
 Proof. exact ex_sanitize. Qed.
